@@ -712,6 +712,7 @@ func c18GenRay(kind string) func(g *c18G, w int, m *c18Meta) c18Workload {
 			ownerLabels["ray.io/priority-class-name"] = g.pick("rayPrioLabelV", "high", "low")
 		}
 		var top, cluster c18Ref
+		var second *c18Ref
 		name := g.name("ray")
 		switch kind {
 		case "RayCluster":
@@ -728,8 +729,31 @@ func c18GenRay(kind string) func(g *c18G, w int, m *c18Meta) c18Workload {
 			if g.chance(3, "rayServicePending") {
 				st = map[string]any{"pendingServiceStatus": map[string]any{"rayClusterName": cn}}
 			}
+			// a RayService in a zero-downtime upgrade: the active RayCluster and the pending one (other worker
+			// sizes) exist side by side, both named in the status, pods of both belong to the one workload
+			var cn2 string
+			var spec2 map[string]any
+			if g.chance(4, "rayServiceUpgrade") {
+				cn2 = name + "-raycluster-" + g.pick("rayClusterSfx2", "q9w3e", "t5y6u")
+				var specs2 []any
+				for i, n := 0, g.between(1, 2, "rayWorkerGroups2"); i < n; i++ {
+					r := g.between(1, 4, "rayReplicas2")
+					s2 := map[string]any{"replicas": int64(r), "minReplicas": int64(g.between(0, r, "rayMinReplicas2")), "maxReplicas": int64(r + 1), "template": g.podTemplate(m),
+						"groupName": []string{"gpu-workers", "cpu-workers-v2"}[i]}
+					if g.chance(2, "rayNumOfHosts2") {
+						s2["numOfHosts"] = int64(2)
+					}
+					specs2 = append(specs2, s2)
+				}
+				spec2 = map[string]any{"headGroupSpec": map[string]any{"rayStartParams": map[string]any{}, "template": g.podTemplate(m)}, "workerGroupSpecs": specs2}
+				st = map[string]any{"activeServiceStatus": map[string]any{"rayClusterName": cn}, "pendingServiceStatus": map[string]any{"rayClusterName": cn2}}
+			}
 			top = g.obj(apiVersion, "RayService", name, ownerLabels, m.ownerAnn, nil, map[string]any{"spec": map[string]any{"rayClusterConfig": clusterSpec}, "status": st})
 			cluster = g.obj(apiVersion, "RayCluster", cn, m.midLabels, nil, &top, map[string]any{"spec": clusterSpec})
+			if cn2 != "" {
+				c2 := g.obj(apiVersion, "RayCluster", cn2, m.midLabels, nil, &top, map[string]any{"spec": spec2})
+				second = &c2
+			}
 		}
 		want := c18PGName(top.Name, top.UID)
 		mk := func(pn, group, nodeType string) {
@@ -745,6 +769,16 @@ func c18GenRay(kind string) func(g *c18G, w int, m *c18Meta) c18Workload {
 				if g.chance(7, "rayWorkerExists") && len(g.c.Pods) < 12 {
 					mk(fmt.Sprintf("%s-%s-worker-%d%s", cluster.Name, x.name, i, c18Letters[g.u(16, "rayWorkerSfx")]), x.name, "worker")
 				}
+			}
+		}
+		if second != nil {
+			mk2 := func(pn, group, nodeType string) {
+				g.addPod(w, pn, second, m, c18PodOpt{role: map[string]string{"ray.io/cluster": second.Name, "ray.io/group": group, "ray.io/node-type": nodeType, "ray.io/is-ray-node": "yes"},
+					key: "all", wantName: want, wantSub: "?"})
+			}
+			mk2(second.Name+"-head-"+c18Letters[g.u(16, "rayHeadSfx2")], "headgroup", "head")
+			if g.chance(6, "rayWorker2Exists") && len(g.c.Pods) < 12 {
+				mk2(fmt.Sprintf("%s-gpu-workers-worker-0%s", second.Name, c18Letters[g.u(16, "rayWorkerSfx2")]), "gpu-workers", "worker")
 			}
 		}
 		if kind == "RayJob" && g.chance(4, "raySubmitter") {
